@@ -43,6 +43,7 @@ class Ctx:
         atexit.register(lambda: shutil.rmtree(self.scratch, ignore_errors=True))
         self.violations = []      # (replay_path, nofail)
         self.reported = {}        # key -> occurrences (one VIOLATION line and replay per key)
+        self.deferred = []        # replay files of no-failing-input-found violations, printed by finish()
         self.known = []           # text lines
         self.notes = []
         self.cov = {}
@@ -368,8 +369,14 @@ def violation(ctx, key, replay_obj, nofail=False):
         return
     ctx.reported[key] = 1
     path = write_replay(ctx, re.sub(r"[^A-Za-z0-9_.-]", "_", key)[:60], dict(replay_obj, key=key, no_failing_input_found=nofail))
-    ctx.violations.append((path, nofail))
-    print("VIOLATION property=%s replay=%s%s" % (ctx.prop, path, " no-failing-input-found" if nofail else ""))
+    if nofail:
+        # a broken proof or correspondence is reported as such only if the whole run (all stages of the
+        # check) exhibits no concrete failing input: the line is printed by finish()
+        ctx.deferred.append(path)
+        ctx.violations.append((path, True))
+        return
+    ctx.violations.append((path, False))
+    print("VIOLATION property=%s replay=%s" % (ctx.prop, path))
     sys.stdout.flush()
 
 
@@ -403,5 +410,16 @@ def write_evidence(ctx, level, coverage, assumptions, violations=None):
 
 
 def finish(ctx):
+    if any(not nf for _, nf in ctx.violations):
+        # a failing input was exhibited: the divergences seen along the way are kept as files next to it
+        # (their replay files name what else no longer checks) but are not separate violations
+        for p in ctx.deferred:
+            try:
+                os.rename(p, p[:-5] + ".also-diverged.json")
+            except OSError:
+                pass
+    else:
+        for p in ctx.deferred:
+            print("VIOLATION property=%s replay=%s no-failing-input-found" % (ctx.prop, p))
     sys.stdout.flush()
     sys.exit(1 if ctx.violations else 0)
